@@ -5,5 +5,5 @@ CONSTANTS
   FlagSets <- OneFlags
   TagLists <- McSweepOutsideDemux
   Segs <- McSegs
-INVARIANTS Layout RefDec Prefix Final HeaderOk Framing
+INVARIANTS Layout RefDec Prefix Final HeaderOk Framing InputsUntouched NoLoss
 CHECK_DEADLOCK TRUE
